@@ -49,7 +49,8 @@ def protos : List (String × Proto) := [
   ("leveltbl", OxiddModel.Bdd.LevelTable.Driver.proto),
   ("c14t", OxiddModel.Bdd.ThresholdDriver.proto),
   ("aigparse", OxiddModel.AigerParse.proto),
-  ("aigparse-noskip", OxiddModel.AigerParse.protoNoSkip)
+  ("aigparse-noskip", OxiddModel.AigerParse.protoNoSkip),
+  ("aigparse-before-fix", OxiddModel.AigerParse.protoBeforeFix)
 ]
 
 def main (args : List String) : IO UInt32 := do
